@@ -4,10 +4,10 @@ package main
 // came from. Declarations are collected per verification context.
 
 import (
-	"regexp"
 	"fmt"
 	"go/types"
 	"os"
+	"regexp"
 	"sort"
 	"strconv"
 	"strings"
@@ -119,20 +119,20 @@ func bigLit(s string) string {
 
 // Ctx collects declarations for one verification unit (one function).
 type Ctx struct {
-	decls     []string          // const/fun declarations in order
-	declared  map[string]bool   // names
-	sorts     *SortReg          // datatype registry (shared)
-	fresh     int               // fresh-name counter
-	strLits   map[string]string // string literal -> const name
-	strOrder  []string
-	axioms    []string // global axioms (string literals, emb functions...)
-	axiomSeen map[string]bool
-	errIDs    int
-	epochs    int
-	csort     map[string]string // constant name -> sort
-	defs      map[string]string // heap map version constant -> the term it was defined as (heapSet)
-	allocs    map[string]bool   // allocation constants (pairwise distinct)
-	specAxioms map[string]bool  // formulas assumed from 'axiom' declarations (dropped from a query they are irrelevant to)
+	decls      []string          // const/fun declarations in order
+	declared   map[string]bool   // names
+	sorts      *SortReg          // datatype registry (shared)
+	fresh      int               // fresh-name counter
+	strLits    map[string]string // string literal -> const name
+	strOrder   []string
+	axioms     []string // global axioms (string literals, emb functions...)
+	axiomSeen  map[string]bool
+	errIDs     int
+	epochs     int
+	csort      map[string]string // constant name -> sort
+	defs       map[string]string // heap map version constant -> the term it was defined as (heapSet)
+	allocs     map[string]bool   // allocation constants (pairwise distinct)
+	specAxioms map[string]bool   // formulas assumed from 'axiom' declarations (dropped from a query they are irrelevant to)
 }
 
 var absSymRe = regexp.MustCompile(`abs![A-Za-z0-9_.]+`)
